@@ -1,7 +1,7 @@
 (* C06 -- Killed text is never lost: yank restores it, kills accumulate, yank-pop rotates.
    Property theorems only. The ring (src/kill_ring.rs) is the DeleteListener of kill commands:
    a kill command's notifications are StartKill, Delete(idx, text, direction), StopKill (C04). *)
-From RL Require Import UData LineBuffer KillRing Editor EditorRun KillRingProofs KillEditor.
+From RL Require Import UData LineBuffer KillRing Editor EditorRun KillRingProofs KillEditor KillChron.
 
 (* a kill that starts a run puts exactly the removed text in a fresh slot; the next yank returns it *)
 Theorem C06_kill_then_yank :
@@ -100,6 +100,60 @@ Theorem C06_kill_after_yank_pop_keeps_others :
   /\ forall j, j <> new_index k -> j < length (kr_slots k) -> nth_error (kr_slots k') j = nth_error (kr_slots k) j.
 Proof. exact kr_kill_new_others. Qed.
 Print Assumptions C06_kill_after_yank_pop_keeps_others.
+
+(* CHRONOLOGY. Read from the most recent kill backwards (chron), the ring of kill_ring.rs -- slots, index, newest -- is a list
+   with a yanking pointer (ptr), and every ring operation is the obvious list operation:
+   a kill after anything but a kill puts its text in front, dropping the oldest entry once [cap] are held ... *)
+Theorem C06_new_kill_is_cons :
+  forall (k : killring) (t : str) (m : kr_mode),
+  kc_inv k -> kr_last k <> KAKill ->
+  exists k', kr_kill k t m = Ok k' /\ kc_inv k' /\ kr_cap k' = kr_cap k /\ kr_last k' = KAKill
+    /\ chron k' = firstn (kr_cap k) (t :: chron k) /\ ptr k' = 0.
+Proof. exact kc_new_kill. Qed.
+Print Assumptions C06_new_kill_is_cons.
+
+(* ... yank-pop moves the pointer ONE kill further back, wrapping after the oldest kill held, and shows that entry ... *)
+Theorem C06_yank_pop_is_next_older :
+  forall (k : killring) (size : nat),
+  kc_inv k -> kr_last k = KAYank size -> 0 < kn k ->
+  exists s k', kr_yank_pop k = (k', Some (size, s))
+    /\ ptr k' = (ptr k + 1) mod kn k /\ nth_error (chron k) (ptr k') = Some s
+    /\ kc_inv k' /\ kr_cap k' = kr_cap k /\ chron k' = chron k /\ kr_last k' = KAYank (blen s).
+Proof. exact kc_yank_pop. Qed.
+Print Assumptions C06_yank_pop_is_next_older.
+
+(* ... so j yank-pops after a yank show the kill j further back, cycling through ALL kills held and round again ... *)
+Theorem C06_yank_pops_cycle :
+  forall (j : nat) (k : killring) (size : nat),
+  kc_inv k -> kr_last k = KAYank size -> 0 < kn k -> 0 < j ->
+  exists s k', pops j k = (k', Some s) /\ nth_error (chron k) ((ptr k + j) mod kn k) = Some s
+    /\ chron k' = chron k /\ ptr k' = (ptr k + j) mod kn k /\ kc_inv k'.
+Proof. exact kc_pops. Qed.
+Print Assumptions C06_yank_pops_cycle.
+
+(* ... and for EVERY sequence of ring operations (kill in either direction, yank, yank-pop, reset by another command,
+   counted yank, start / stop of a kill command) from a ring satisfying the invariant -- the empty ring does --
+   nothing panics and every answer is the list machine's (astep: cons / extend the head / nth under the pointer /
+   pointer + 1 modulo the number of kills held) *)
+Theorem C06_ring_is_list_machine :
+  forall (os : list kop) (k : killring),
+  kc_inv k ->
+  exists k' outs, crun k os = Ok (k', outs) /\ kc_inv k' /\ (abs k', outs) = arun (kr_cap k) (abs k) os.
+Proof. exact crun_refines. Qed.
+Print Assumptions C06_ring_is_list_machine.
+
+Theorem C06_empty_ring_ok : forall n : nat, 0 < n -> kc_inv (kr_new n).
+Proof. exact kc_new. Qed.
+Print Assumptions C06_empty_ring_ok.
+
+(* non-vacuity: a ring of 2 slots, three separate kills, yank and three yank-pops: c, b, c, b (a was dropped) *)
+Example C06_chron_example :
+  let ops := [OKill [97%N] KAppend; OReset; OKill [98%N] KAppend; OReset; OKill [99%N] KAppend; OReset; OYank; OPop; OPop; OPop] in
+  match crun (kr_new 2) ops with
+  | Ok (_, outs) => outs = [None; None; None; None; None; None; Some [99%N]; Some [98%N]; Some [99%N]; Some [98%N]]
+  | Panic => False
+  end.
+Proof. vm_compute. reflexivity. Qed.
 
 Example C06_example :
   let cfg := mk_config Emacs CTCircular true 80 false [] [] VKNone [] in
